@@ -20,9 +20,22 @@ type c14Scenario struct {
 }
 
 func runC14(h *H) {
-	h.Rule("2..8 sessions on one server with the in-memory backend, each running its own command list concurrently (no synchronisation between sessions) over mailboxes A, B, C pre-filled with messages: targeted scenarios (COPY and MOVE in opposite directions between two mailboxes, expunge during fetch, LIST/STATUS during RENAME/DELETE/CREATE, LIST/LSUB during SUBSCRIBE/UNSUBSCRIBE, IDLE while another session appends, STORE during COPY) repeated many times, plus seeded random command mixes. Every command has a watchdog; a command that gets no tagged completion within the limit is a stall: the histories of all sessions and a goroutine dump are the replay. With VERIF_RACE=1 the same run is executed by a -race build and race reports involving imapserver packages are violations. Non-trivial = at least two sessions ran a mutating command on a shared mailbox; distinct by scenario and seed.")
+	h.Rule("2..8 sessions on one server with the in-memory backend, each running its own command list concurrently (no synchronisation between sessions) over mailboxes A, B, C pre-filled with messages: targeted scenarios (COPY and MOVE in opposite directions between two mailboxes, expunge during fetch, LIST/STATUS during RENAME/DELETE/CREATE, LIST/LSUB during SUBSCRIBE/UNSUBSCRIBE, IDLE while another session appends, STORE during COPY) repeated many times, plus seeded random command mixes. Every command has a watchdog; a command that gets no tagged completion within the limit and a further grace period of 45 s is a stall (a deadlock never ends, a slow command does; mailboxes are re-created every 250 repetitions to keep them small): the histories of all sessions and a goroutine dump are the replay. With VERIF_RACE=1 the same run is executed by a -race build and race reports involving imapserver packages are violations. Non-trivial = at least two sessions ran a mutating command on a shared mailbox; distinct by scenario and seed.")
 
-	runScenario := func(sc c14Scenario, src string) {
+	var runScenario func(sc c14Scenario, src string)
+	runChunked := func(sc c14Scenario, src string) {
+		// a fresh server every 250 repetitions: the scenarios append/copy messages, and mailboxes
+		// of tens of thousands of messages make commands slow, which is not what is tested here
+		for left := sc.Repeat; left > 0 && !h.failed("stall:"+sc.Name); left -= 250 {
+			part := sc
+			part.Repeat = left
+			if part.Repeat > 250 {
+				part.Repeat = 250
+			}
+			runScenario(part, src)
+		}
+	}
+	runScenario = func(sc c14Scenario, src string) {
 		desc := map[string]interface{}{"scenario": sc}
 		h.InFlight(desc)
 		t0 := time.Now()
@@ -51,6 +64,7 @@ func runC14(h *H) {
 		conns := make([]*memConn, len(sc.Sessions))
 		for i := range sc.Sessions {
 			conns[i] = ms.dial(i + 1)
+			conns[i].grace = 45 * time.Second // a deadlock never ends; a slow command does
 			conns[i].rc.cmd("LOGIN u p")
 		}
 		for i, cmds := range sc.Sessions {
@@ -134,6 +148,11 @@ func runC14(h *H) {
 			h.Fail("server-panic", firstLine(ms.log.String()), desc)
 		}
 		for _, c := range conns {
+			c.mu.Lock()
+			if c.slow > 0 {
+				h.Hist(fmt.Sprintf("slow-but-completed-commands x%d", c.slow))
+			}
+			c.mu.Unlock()
 			c.rc.Close()
 		}
 		if os.Getenv("DBG") != "" {
@@ -172,7 +191,7 @@ func runC14(h *H) {
 		{"store-during-copy", [][]string{{"SELECT A", `STORE 1:* +FLAGS (\Seen)`, `STORE 1:* -FLAGS (\Seen)`}, {"SELECT A", "COPY 1:5 C"}, {"SELECT C", "SEARCH SEEN", "UID SEARCH ALL"}}, rep},
 	}
 	for _, sc := range scenarios {
-		runScenario(sc, "targeted")
+		runChunked(sc, "targeted")
 	}
 	// random mixes
 	verbs := []string{"SELECT A", "SELECT B", "SELECT C", "EXAMINE A", "FETCH 1:* FLAGS", "UID FETCH 1:* (FLAGS)", "COPY 1:3 A", "COPY 1:3 B", "COPY 1 C",
@@ -188,6 +207,6 @@ func runC14(h *H) {
 			}
 			sc.Sessions = append(sc.Sessions, cmds)
 		}
-		runScenario(sc, "random")
+		runChunked(sc, "random")
 	}
 }
